@@ -120,7 +120,10 @@ FAULTS = ['readonly', 'type', 'units', 'numer', 'denom', 'kind', 'shape', 'deriv
 # variations layered like faults: 'shape1' = an operand with axes but a single element (a fault only for a shapeless
 # target: it cannot be broadcast INTO shape ()); 'argunits' = the operand brings units to a target without units
 # (legal on its own - combined with a real fault the rejected operation must not leave the units behind)
-VARIATIONS = ['shape1', 'argunits']
+VARIATIONS = ['shape1', 'argunits', 'argmask']
+# 'argmask' = the operand is masked somewhere and holds a zero (legal on its own; an operator that merges the operand's
+# mask or looks for zero divisors BEFORE it meets the real fault leaves that behind - seeded change C19-H)
+KIND_NUMBERS = [2.5, np.float32(2.5), np.float64(2.5), np.float16(2.5), np.array(2.5), np.array(2.5, dtype='float32')]
 BADTYPES = [{'a': 1}, 'abc', None, object]       # the 'type' fault cycles through these
 INPLACE = ['iadd', 'isub', 'imul', 'itruediv', 'ifloordiv', 'imod', 'iand', 'ior', 'ixor']
 SETITEM = ['set_int', 'set_slice', 'set_mask', 'set_ellipsis', 'set_array']
@@ -215,8 +218,9 @@ def apply_fault(arg, fault, target, op, Pm, want_shape):
         if isinstance(arg, Pm.Qube):
             return type(arg)(np.asarray(arg._values_, dtype=float) + 0.5, arg._mask_, drank=len(arg.denom)), True
         if isinstance(arg, np.ndarray):
-            return arg.astype(float) + 0.5, True
-        return 2.5, True
+            return arg.astype(float if (len(op) + arg.ndim) % 2 else 'float32') + 0.5, True
+        # every representation of a floating-point number (seeded change C19-G: only Python floats were recognised)
+        return KIND_NUMBERS[(len(op) + len(type(x).__name__) + len(x.shape)) % len(KIND_NUMBERS)], True
     if fault == 'shape':
         bad = (4,) + tuple(want_shape) if len(want_shape) >= 0 else (4,)
         if want_shape and want_shape[0] == 4:
@@ -241,6 +245,23 @@ def apply_fault(arg, fault, target, op, Pm, want_shape):
             return type(arg)(vals, drank=len(arg.denom)), True
         if isinstance(arg, np.ndarray):
             return np.ones(bad + tuple(x.item), dtype=arg.dtype), True
+        return arg, False
+    if fault == 'argmask':
+        if isinstance(arg, Pm.Qube) and op in INPLACE and not arg.readonly:
+            a = arg.copy()
+            vals = np.asarray(a._values_)
+            if a.shape:
+                m = np.zeros(a.shape, bool)
+                m[(0,) * len(a.shape)] = True
+                if (len(op) + len(a.shape)) % 2 and a.size > 1:
+                    m = True                   # the whole operand masked by the single value True
+                if vals.dtype.kind in 'fiu' and not a.item:
+                    vals = vals.copy()
+                    vals[(-1,) * len(a.shape)] = 0
+                a = type(a)(vals, m, drank=len(a.denom), units=a.units, derivs=dict(a.derivs))
+            else:
+                a = a.remask(True)
+            return a, True
         return arg, False
     if fault == 'argunits':
         if isinstance(arg, Pm.Qube) and arg.UNITS_OK and x.UNITS_OK and x.units is None and arg.units is None:
